@@ -20,7 +20,7 @@ ID = "C05"
 LEVEL = "exploration"
 RULE = ("sequences of steps over {define n v | use ref | [ begin include | ] end include}: every "
         "sequence of up to 3 (quick) / 4 (thorough) steps over the full alphabet (4 spellings of "
-        "3 names x 8 values incl. '', '$other', '$$other', '${OTHER}x', padded; 5 illegal "
+        "3 names x 8 values incl. '', '$other', '$$other', '${OTHER}x', padded; 8 illegal "
         "names incl. three with letters that only case-insensitive matching equates with ASCII; 7 references) and of up to 4/5 steps over a 12-symbol core alphabet, includes "
         "nested up to 2 levels; Hypothesis sequences up to 8 steps. Each sequence is loaded "
         "twice against one schema object and followed by a use-without-define probe. "
@@ -46,6 +46,8 @@ FULL = ([("d", n, v) for n in NAMES for v in VALUES] +
         # letters outside ASCII are not name characters -- not even the three that case-insensitive
         # matching equates with ASCII letters (long s, dotless i, Kelvin sign)
         [("d", "\u017f", "v"), ("d", "a\u212a", "v"), ("d", "b\u0131", "v")] +
+        # illegal names made of characters that mean something to string formatting
+        [("d", "%a", "v"), ("d", "a%(b)s", "v"), ("d", "{a}", "v")] +
         [("u", r) for r in ("$a", "${A}x", "$b", "$c", "$$a", "$a\u212a", "$b\u017f")] + [("[",), ("]",)])
 CORE = [("d", "a", "v"), ("d", "a", "w"), ("d", "A", "v"), ("d", "a", "$b"), ("d", "a", "$$b"),
         ("d", "a", "p q"), ("d", "A", "p  q"),
